@@ -617,6 +617,60 @@ fn main() {
             }
             println!("RESULT enum:stream-chunks {cases} chunked decodes agree with buffer decoding");
         }
+        // ---- C09 enumerator (evaluation half): `id *== @ref` over resolvers whose refs form chains and cycles of several shapes must
+        //      terminate with the right answer; a run that does not come back is reported as a hang by the caller's watchdog
+        "enum:wildcard-cycles" => {
+            use libhaystack::defs::namespace::DEFAULT_NS;
+            use libhaystack::filter::eval::{Eval, EvalContext};
+            use libhaystack::filter::path::Path;
+            use libhaystack::filter::{Filter, PathResolver};
+            use libhaystack::val::{Dict, Ref};
+            struct Records { recs: Vec<Dict> }
+            impl PathResolver for Records {
+                fn resolve_for(&self, root: &Dict, path: &Path) -> Value {
+                    if path.is_empty() || root.is_empty() { return Value::Null; }
+                    let mut cur = Value::Dict(root.clone());
+                    for segment in path.iter() {
+                        let name = segment.to_string();
+                        cur = match &cur { Value::Dict(d) => d.get(&name).cloned().unwrap_or(Value::Null), _ => Value::Null };
+                        if cur.is_null() { break; }
+                    }
+                    cur
+                }
+                fn resolve(&self, _path: &Path) -> Value { Value::Null }
+                fn resolve_ref(&self, id: &Ref) -> Option<Dict> {
+                    self.recs.iter().find(|rec| matches!(rec.get("id"), Some(Value::Ref(r)) if r == id)).cloned()
+                }
+            }
+            let rec = |id: &str, next: Option<&str>| { let mut d = Dict::new(); d.insert("id".into(), Value::make_ref(id));
+                if let Some(n) = next { d.insert("chainRef".into(), Value::make_ref(n)); } d };
+            // (records, target, expected): straight chain, cycle through the first ref, cycle behind the first ref, self loop,
+            // dangling ref, a ref that resolves to a record without the tag
+            let cases: Vec<(Vec<Dict>, &str, bool)> = vec![
+                (vec![rec("p", Some("a")), rec("a", Some("b")), rec("b", Some("c")), rec("c", None)], "c", true),
+                (vec![rec("p", Some("a")), rec("a", Some("b")), rec("b", Some("a"))], "z", false),
+                (vec![rec("p", Some("a")), rec("a", Some("b")), rec("b", Some("c")), rec("c", Some("b"))], "z", false),
+                (vec![rec("p", Some("a")), rec("a", Some("b")), rec("b", Some("c")), rec("c", Some("b"))], "c", true),
+                (vec![rec("p", Some("p"))], "z", false),
+                (vec![rec("p", Some("a"))], "z", false),
+                (vec![rec("p", Some("a")), rec("a", None)], "z", false),
+                (vec![rec("p", Some("a")), { let mut d = Dict::new(); d.insert("id".into(), Value::make_ref("a")); d }, rec("b", Some("a"))], "b", false),
+            ];
+            for (i, (recs, target, want)) in cases.into_iter().enumerate() {
+                let text = format!("chainRef *== @{target}");
+                let filter = Filter::try_from(text.as_str()).expect("filter text");
+                let db = Records { recs };
+                let first = db.recs[0].clone();
+                let cx = EvalContext::make(&first, &DEFAULT_NS, &db);
+                println!("B {i}");
+                let got = filter.eval(&cx);
+                if got != want {
+                    println!("RESULT enum:wildcard-cycles case {i}: {text} over {:?} = {got}, expected {want}", db.recs);
+                    std::process::exit(3);
+                }
+            }
+            println!("RESULT enum:wildcard-cycles 8 ref-chain shapes (straight, cycles through and behind the first ref, self loop, dangling, tag missing) terminate with the right answer");
+        }
         // ---- C07 enumerator: a small universe of filters x records against an oracle written from the filter semantics; exit 3 on mismatch
         "enum:filter-eval" => {
             use libhaystack::filter::*;
